@@ -55,7 +55,7 @@ func (s *Server) DocumentLink(ctx context.Context, params *protocol.DocumentLink
 // text), in UTF-16 code units. If the path is not found literally on the directive's line
 // the range of the whole directive is returned.
 func includePathRange(lines []string, inc ast.Include) protocol.Range {
-	whole := *astRangeToProtocol(inc.Range)
+	whole := *(&columnMapper{lines: lines}).toProtocol(inc.Range)
 	lineIdx := inc.Range.Start.Line - 1
 	if lineIdx < 0 || lineIdx >= len(lines) {
 		return whole
